@@ -1,4 +1,4 @@
-\* code: two memory databases created in one clock tick share one slot range entry -- must violate AcceptedVisible
+\* the code BEFORE the repair of memdb.NewMemoryDatabase: two memory databases created in one clock tick share one slot range entry -- must violate AcceptedVisible
 CONSTANTS
   Leader = {1}
   MaxRow = 2
